@@ -242,8 +242,11 @@ impl Broker {
             }
             Op::Balance { name } => r(block_on(self.svc.balance_masters(name.clone()))),
             Op::ChangeConfig { name, k, v } => {
+                // several fields in one request: "k1;k2" / "v1;v2"
                 let mut m = std::collections::HashMap::new();
-                m.insert(k.clone(), v.clone());
+                for (kk, vv) in k.split(';').zip(v.split(';')) {
+                    m.insert(kk.to_string(), vv.to_string());
+                }
                 r(block_on(self.svc.change_config(name.clone(), m)))
             }
             Op::DeleteFree { name } => r(block_on(self.svc.auto_delete_free_nodes(name.clone()))),
